@@ -818,6 +818,19 @@ def call_numpy(it, f, args, kwargs, node):
         return r
     if f.startswith("random."):
         it.effect("ext", "rng:numpy", node, "numpy." + f)
+        if f in ("random.randint", "random.choice", "random.permutation"):
+            # value-wise the same kinds of draws as the torch functions (their *source* is C14's business)
+            it.rng_counter = getattr(it, "rng_counter", 0) + 1
+            a = list(args)
+            size = kwargs.get("size")
+            hi = (a[1] if len(a) > 1 and f == "random.randint" and not isinstance(a[1], VTuple) else a[0]) if a else kwargs.get("high")
+            if size is None and f == "random.randint" and len(a) > 1 and isinstance(a[-1], VTuple):
+                size = a[-1]
+            shape = shape_from_args([size]) if size is not None else (((dim_of(a[0]),) if f == "random.permutation" and a else None))
+            op = "randperm" if f == "random.permutation" else "randint"
+            r = it.fresh(T.app(op, num_term(hi) if num_term(hi) is not None else T.sym("?"), T.sym("draw#%d" % it.rng_counter)), shape, "ndarray", node)
+            r.obj.valkind = "perm" if op == "randperm" else "index"
+            return r
         return opaque_tensor(it, "numpy." + f, args, kwargs, node, kind="ndarray")
     if f in ("uint8", "float32", "float64", "int64", "complex128", "bool_", "ndarray", "float", "int", "complex", "str_"):
         if args:
